@@ -163,9 +163,9 @@ class SeqCell:
 class MapCell:
     """dict with symbolic scalar keys: dom: Array K Bool, val: Array K V (V scalar sort or Int for refs)."""
 
-    __slots__ = ("ksort", "vkind", "dom", "val", "refcls", "fields")
+    __slots__ = ("ksort", "vkind", "dom", "val", "refcls", "fields", "n", "fields0", "rname")
 
-    def __init__(self, ksort, vkind, dom, val, refcls=None, fields=None):
+    def __init__(self, ksort, vkind, dom, val, refcls=None, fields=None, n=None, fields0=None, rname=None):
         self.ksort = ksort
         self.vkind = vkind
         self.dom = dom
@@ -173,10 +173,16 @@ class MapCell:
         self.refcls = refcls
         # vkind == "ref": the values are objects of class refcls, one per key, stored as a struct of arrays:
         # fields[name] = (kind, Array K -> sort(kind))
+        # kind "link": Array K -> Int, the key of another object of the same map, -1 for None
+        # kind "facade": (class, back-reference attribute) - an abstract helper object bound to the element
         self.fields = dict(fields or {})
+        # heap region (contract.Region): the keys are 0 .. n-1 (n symbolic); fields0 = the field arrays of the pre-state
+        self.n = n
+        self.fields0 = fields0 if fields0 is not None else dict(self.fields)
+        self.rname = rname
 
     def copy(self):
-        return MapCell(self.ksort, self.vkind, self.dom, self.val, self.refcls, self.fields)
+        return MapCell(self.ksort, self.vkind, self.dom, self.val, self.refcls, self.fields, self.n, self.fields0, self.rname)
 
 
 class MapElem:
@@ -371,3 +377,18 @@ def background_axioms():
     i = z3.Int("bg!i")
     out.append(z3.ForAll([a, i], z3.If(i <= 0, PS(a, i) == 0, PS(a, i) == PS(a, i - 1) + z3.Select(a, i - 1)), patterns=[PS(a, i)]))
     return out
+
+
+def reach_function(rname, field):
+    """Closure relation over the links `field` of the region `rname` (pre-state), an uninterpreted relation."""
+    return z3.Function(f"reach!{rname}!{field}", z3.IntSort(), z3.IntSort(), z3.BoolSort())
+
+
+def reach_definition(rname, field, arr0):
+    """reach(a, b) == (a == b or (a is an object, link[a] is not None and reach(link[a], b))): the fixpoint equation.  It is
+    consistent for every link array (the least fixpoint satisfies it) and has exactly one solution when the links are
+    acyclic, which the contracts require through a strictly decreasing ghost depth."""
+    F = reach_function(rname, field)
+    a, b = z3.Int("ra!"), z3.Int("rb!")
+    nxt = z3.Select(arr0, a)
+    return z3.ForAll([a, b], F(a, b) == z3.Or(a == b, z3.And(a >= 0, nxt != -1, F(nxt, b))), patterns=[F(a, b)])
